@@ -17,8 +17,15 @@
      - a thread in flight has written a prefix of its frames, is part-way through the next one as its
        program counter says, and everything after is still zero;
      - every non-zero slot of a live partition belongs to a claim. *)
-Require Import V.Base.MachineInt V.Generated.GenConsts V.Model.LogBase V.Model.Descriptor V.Proofs.DescriptorProofs
-               V.Model.Sched V.Model.AppenderThreads V.Proofs.TailArith V.Proofs.FragArith.
+Require Import V.Base.MachineInt.
+Require Import V.Generated.GenConsts.
+Require Import V.Model.LogBase.
+Require Import V.Model.Descriptor.
+Require Import V.Proofs.DescriptorProofs.
+Require Import V.Model.Sched.
+Require Import V.Model.AppenderThreads.
+Require Import V.Proofs.TailArith.
+Require Import V.Proofs.FragArith.
 From Coq Require Import ZifyBool.
 Open Scope Z_scope.
 
